@@ -24,7 +24,7 @@ ASSUMPTIONS = ['unittest semantics of the running interpreter (calibrated)',
 FLOORS = {'child_stderr_chatter_tests': 50, 'ran_lines_checked': 600, 'totals_checked': 150,
           'name_lists_checked': 100, 'mode_pairs': 40, 'multi_event_tests': 50,
           'layer_failure_cases': 20, 'import_failure_cases': 10,
-          'crashed_child_cases': 12}
+          'crashed_child_cases': 6}
 BATCH_TIMEOUT = 400
 
 
@@ -252,8 +252,11 @@ def judge_crash(w, spec, plan, opts, mode, V, C, truth_mod):
                        for n in d['F'] + d['U'])
         wantE = sorted([n for L, d in T.layers.items() if L != Lc
                         for n in d['E']] + ['subprocess for ' + full_c])
-        gotF = sorted(info['failures_list'] or [])
-        gotE = sorted(info['errors_list'] or [])
+        sq = lambda n: ' '.join(n.split())  # noqa (white space squashed)
+        wantF = sorted(sq(n) for n in wantF)
+        wantE = sorted(sq(n) for n in wantE)
+        gotF = sorted(sq(n) for n in info['failures_list'] or [])
+        gotE = sorted(sq(n) for n in info['errors_list'] or [])
         if gotF != wantF:
             V('failure-name-list-differs', 'counts-failure-names',
               got=gotF[:8], want=wantF[:8], mode=mode)
